@@ -1,9 +1,9 @@
 CONSTANTS HW = 10
           Margins = {1, 3, 4}
-          Anchors = {1, 2}
+          Anchors = {1, 2, 3}
           NMax = 8
-          MCMod = 48
-          GenMod = 48
+          MCMod = 144
+          GenMod = 144
           TPad = 3
 INIT Init
 NEXT EvalGen
